@@ -6,6 +6,7 @@ import (
 	"net/http"
 	"sort"
 	"strings"
+	"sync"
 
 	"pgregory.net/rapid"
 )
@@ -52,10 +53,38 @@ func (p *PlainReader) Read(dst []byte) (int, error) {
 // Source returns a bytes.Reader (mode 0) or a PlainReader (mode>0: chunk size = mode, odd modes
 // also return the last bytes together with io.EOF).
 func Source(b []byte, mode int) io.Reader {
+	if mode == SourceBuffer {
+		backing := append(make([]byte, 0, len(b)+32), b...)
+		bb := bytes.NewBuffer(backing)
+		bufBacking.Store(bb, backing[:cap(backing)])
+		return bb
+	}
 	if mode <= 0 {
 		return bytes.NewReader(b)
 	}
 	return &PlainReader{B: append([]byte{}, b...), Chunk: mode, EOFWithData: mode%2 == 1}
+}
+
+// SourceBuffer is the Source mode for a *bytes.Buffer over a slice of the caller (the reader kind
+// whose Next method hands out slices of the underlying array). After the read the caller calls
+// Recycle: it reuses that array, and what the code under test returned must not change.
+const SourceBuffer = -100
+
+var bufBacking sync.Map // *bytes.Buffer -> its backing array
+
+// Recycle overwrites the array behind a reader made by Source(b, SourceBuffer); a no-op for
+// every other reader.
+func Recycle(r io.Reader) {
+	bb, ok := r.(*bytes.Buffer)
+	if !ok {
+		return
+	}
+	if v, ok := bufBacking.LoadAndDelete(bb); ok {
+		full := v.([]byte)
+		for i := range full {
+			full[i] ^= 0x5A
+		}
+	}
 }
 
 // SourceModeOf picks a reader mode as a pure function of the bytes (about 40% plain readers), for
@@ -71,12 +100,12 @@ func SourceModeOf(b []byte) int {
 	if h < 0 {
 		h = -h
 	}
-	return []int{0, 0, 0, 0, 0, 0, 1, 2, 7, 512, 4096, 4097}[h%12]
+	return []int{0, 0, 0, 0, SourceBuffer, SourceBuffer, 1, 2, 7, 512, 4096, 4097}[h%12]
 }
 
 // DrawSourceMode draws a reader mode for Source.
 func DrawSourceMode(t *rapid.T, label string) int {
-	return rapid.SampledFrom([]int{0, 0, 0, 1, 2, 7, 512, 4096, 1 << 20, 1<<20 + 1}).Draw(t, label)
+	return rapid.SampledFrom([]int{0, 0, SourceBuffer, 1, 2, 7, 512, 4096, 1 << 20, 1<<20 + 1}).Draw(t, label)
 }
 
 // BuildHeader inserts the fields with http.Header.Add (the repository's own calling
@@ -192,7 +221,8 @@ func FieldValue(t *rapid.T, label string) string {
 	case 0:
 		return ""
 	case 1:
-		return " " + rapid.StringMatching(`[a-z0-9]{1,8}`).Draw(t, label) + " "
+		ws := []string{" ", " ", "\t", "  ", ""}
+		return rapid.SampledFrom(ws).Draw(t, label+"-lead") + rapid.StringMatching(`[a-z0-9]{0,8}`).Draw(t, label) + rapid.SampledFrom(ws).Draw(t, label+"-trail")
 	case 2:
 		return rapid.StringMatching(`[ -~]{0,40}`).Draw(t, label)
 	case 3:
